@@ -101,7 +101,13 @@ pub fn build_symbol_dump(
 ) -> Result<NodePtr, EvalErr> {
     let mut map_result: Vec<NodePtr> = Vec::new();
 
-    for (k, v) in constants_lookup.iter() {
+    // Visit the functions in name order: two functions with identical code share
+    // one hash, and the entry that wins must not depend on hash map order.
+    let mut names: Vec<&Vec<u8>> = constants_lookup.keys().collect();
+    names.sort();
+
+    for k in names {
+        let v = &constants_lookup[k];
         let run_result = run_program.run_program(allocator, *v, NodePtr::NIL, None)?;
 
         let sha256 = sha256tree(allocator, run_result.1).hex();
